@@ -15,7 +15,8 @@ import (
 	"verifh/wire"
 )
 
-var sentinelPool = []error{context.Canceled, context.DeadlineExceeded, os.ErrNotExist, io.EOF, stderrors.New("sentinel"), errors.New("libsentinel")}
+// (os.ErrNotExist comes early: syscall.ENOENT matches it through its own Is method only)
+var sentinelPool = []error{context.Canceled, os.ErrNotExist, context.DeadlineExceeded, io.EOF, stderrors.New("sentinel"), errors.New("libsentinel")}
 
 // wireLeaf builds a leaf wire node with symbolic message, family name and extension.
 func wireLeaf(v *sym.V, name string, nameLen int) *wire.Enc {
@@ -148,6 +149,14 @@ func H_C08_Laws(v *sym.V) {
 		mk := errors.Mark(e, r)
 		v.Assert("mark-ref", errors.Is(mk, r))
 		v.Assert("mark-keeps", sym.Implies(errors.Is(e, r2), errors.Is(mk, r2)))
+		// every reference equivalent to r matches too: a copy of r that crossed the
+		// network, and (for the standard library's plain errors) a fresh object with
+		// the same text
+		hr := wire.Hop(r)
+		v.Assert("mark-ref-equivalent-hop", sym.Implies(markEqModel(r, hr), errors.Is(mk, hr)))
+		if reflect.TypeOf(r) == reflect.TypeOf(stderrors.New("")) {
+			v.Assert("mark-ref-equivalent-fresh", errors.Is(mk, stderrors.New(r.Error())))
+		}
 	}
 }
 
